@@ -1797,7 +1797,12 @@ impl<'a> AstResolver<'a> {
             ty.exports.entry(name).or_insert(*item);
         }
 
-        if let Some(missing) = replacements.values().next() {
+        // Report the first unused `with` item in source order
+        if let Some(missing) = include
+            .with
+            .iter()
+            .find(|item| replacements.contains_key(item.from.string))
+        {
             return Err(Error::MissingWorldInclude {
                 world: include.world.name().to_owned(),
                 name: missing.from.string.to_owned(),
